@@ -149,9 +149,15 @@ def run(tier):
     ncalls = 0
     for si, (sig_text, ret, struct_) in enumerate(sigs):
         names = [n for n in ret if n not in ("args", "kwargs")]
-        calls = call_shapes(names, random.Random("%d/c08/%d" % (s, si)), full)
-        if not full and len(calls) > 140:
-            calls = random.Random("%d/c08s/%d" % (s, si)).sample(calls, 140)
+        # quick: sampled call shapes, 140 per signature; thorough: every signature, 700 call shapes per signature drawn from the
+        # fuller enumeration (the complete product of shapes x 13 paths does not finish in hours)
+        calls = call_shapes(names, random.Random("%d/c08/%d" % (s, si)), False)
+        cap = 140 if not full else 700
+        if full:
+            more = call_shapes(names, random.Random("%d/c08f/%d" % (s, si)), False)
+            calls = calls + [c for c in more if c[0] not in set(x[0] for x in calls)]
+        if len(calls) > cap:
+            calls = random.Random("%d/c08s/%d" % (s, si)).sample(calls, cap)
         calls = [c for c in calls]
         exp = py_expected(sig_text, ret, calls)
         keep = [(c, e) for c, e in zip(calls, exp) if e[0] != "syntax"]
@@ -173,6 +179,11 @@ def run(tier):
                 units = [{"file": "sig.star", "src": d, "calls": [{"fn": "f", "pos": c[1][0], "named": c[1][1]} for c, _ in hc]}]
                 meta[cid] = (sig_text, [c for c, _ in hc], [e for _, e in hc], path)
             cases.append({"id": cid, "cfg": {"dialect": "internal"}, "units": units})
+        # the additional paths below run on a bounded sample of the call shapes in the exhaustive tier (the eight basic paths stay exhaustive)
+        calls_all, exp_all = calls, exp
+        if full and len(calls) > 500:
+            idx = sorted(random.Random("%d/c08x/%d" % (s, si)).sample(range(len(calls)), 500))
+            calls, exp = [calls_all[k] for k in idx], [exp_all[k] for k in idx]
         # bodies the compiler inlines at call sites of frozen defs (`return type(x) == "T"`, a safe-to-inline expression):
         # binding must be decided before the body is substituted
         if len(ret) <= 2 and "args" not in ret and "kwargs" not in ret:
@@ -222,6 +233,7 @@ def run(tier):
         cases.append({"id": cid, "cfg": {"dialect": "internal"}, "units": [{"file": "sig.star", "src": srch, "calls": [{"fn": "PH%d" % k, "pos": c[1][0], "named": c[1][1]} for k, c, _ in hp]}]})
         meta[cid] = (sig_text, [c for _, c, _ in hp], [e for _, _, e in hp], "partial_host")
         ncalls += 2 * len(pcalls) + len(hp)
+        calls, exp = calls_all, exp_all
     # native functions (harness natives defined with #[starlark_module]); the oracle is the corresponding Python signature
     NATIVES = [
         ("nat_po2", "a, b, /", ["a", "b"]), ("nat_pk2", "a, b", ["a", "b"]), ("nat_pk_def", "a, b=101", ["a", "b"]),
@@ -301,7 +313,7 @@ def run(tier):
         "agreeing_per_path": agree,
         "calls_that_bind": ok_calls,
         "calls_that_must_fail": fail_calls,
-        "exhaustive": bool(full),
+        "exhaustive": False,
     }
     rep.assumptions = ["argument order restricted to positional*, named*, *seq?, **map? with string keys and int defaults (written identically in both languages)",
                        "native functions are covered by a fixed family of 10 harness natives spanning the parameter kinds"]
